@@ -241,6 +241,38 @@ class NodeStates:
             return self._all(Def('unknown', fn=h, why='%s has no value return' % h.name))
         return out
 
+    def _slot_targets(self, F, slot_d, var_d):
+        """fields of the node var_d whose address the local slot_d may hold, when every definition of slot_d is the address of a field"""
+        key = (F.name, slot_d, var_d)
+        cache = self.__dict__.setdefault('_slots', {})
+        if key in cache:
+            return cache[key]
+        from .common import assignments
+        defs = [d_['init'] for d_ in F.locals() if d_['d'] == slot_d and 'init' in d_]
+        for a_ in assignments(F):
+            l_ = strip_casts(a_['l'])
+            if l_.get('k') == 'ref' and l_.get('d') == slot_d:
+                defs.append(a_['r'] if a_['op'] == '=' else None)
+        out = set()
+        ok = bool(defs)
+        for r_ in defs:
+            if r_ is None:
+                ok = False
+                break
+            r0 = strip_casts(r_)
+            if is_null_const(r_) or r0.get('null'):
+                continue
+            if r0.get('k') == 'un' and r0.get('op') == '&' and strip_casts(r0['e']).get('k') == 'mem' and \
+                    strip_casts(strip_casts(r0['e'])['b']).get('k') == 'ref':
+                m_ = strip_casts(r0['e'])
+                if strip_casts(m_['b']).get('d') == var_d:
+                    out.add(m_['f'])
+            else:
+                ok = False
+                break
+        cache[key] = frozenset(out) if ok else frozenset()
+        return cache[key]
+
     def _transfer(self, F, cfg, node, var_d, st, bind, depth):
         root = node.expr
         if node.kind == 'decl' and node.decl is not None:
@@ -292,6 +324,16 @@ class NodeStates:
                     else:
                         prev = [d for d in st[f] if d.kind != 'nocopy']
                         st[f] = frozenset([Def('upd', field=f, r=ev['r'], op=ev['op'], stmt=ev, fn=F, bind=bind, prev=prev)])
+                elif l.get('k') == 'un' and l.get('op') == '*' and strip_casts(l['e']).get('k') == 'ref' and \
+                        strip_casts(l['e']).get('d') != var_d and ev['op'] == '=' and self._slot_targets(F, strip_casts(l['e']).get('d'), var_d):
+                    # *link = r with link a local that only ever holds addresses of link fields (&v->child, &x->next): where it may
+                    # designate a field of v, the store is one more definition of that field next to the ones in effect
+                    st = dict(st)
+                    for f in self._slot_targets(F, strip_casts(l['e']).get('d'), var_d):
+                        if f in st:
+                            nd_ = Def('zero', field=f, stmt=ev, fn=F, bind=bind) if _is_zero(ev['r']) else \
+                                Def('store', field=f, r=_value(ev['r']), stmt=ev, fn=F, bind=bind)
+                            st[f] = frozenset(set(st[f]) | {nd_})
                 elif l.get('k') == 'un' and l.get('op') == '*' and strip_casts(l['e']).get('k') == 'ref' and strip_casts(l['e']).get('d') == var_d:
                     # *v = *src
                     r = strip_casts(ev['r'])
